@@ -36,6 +36,8 @@ const MODELS: &[(&str, &str)] = &[
     ("B-bytes-stay-full", "capacity freed in the message dimension only: the waiter's future stays pending at every poll"),
     ("B-msgs-stay-full", "capacity freed in the byte dimension only: the waiter's future stays pending at every poll"),
     ("G3", "3 waiters released by one dec"),
+    ("X-bytes-then-msgs", "the waiter parks held back by bytes; another thread then brings the message count to its limit and only then frees the bytes; polled again after that thread was joined, the waiter is still pending (and resumes once both counts are below their limits)"),
+    ("X-msgs-then-bytes", "mirror image: held back by messages; then bytes reach their limit and only then the messages are freed"),
 ];
 
 fn run_model(name: &str, pb: Option<usize>) {
@@ -125,6 +127,50 @@ fn run_model(name: &str, pb: Option<usize>) {
                 });
                 t.join().unwrap();
                 w.join().unwrap();
+            }
+            "X-bytes-then-msgs" | "X-msgs-then-bytes" => {
+                // The waiter is polled only while nobody else touches the counters (before the other thread starts and
+                // after it has been joined), so that the non-atomic two-load check cannot mix an old and a new value:
+                // it parks held back by ONE dimension; the other thread then fills the OTHER dimension and only then frees
+                // the first; at the final poll one count is at its limit, so the waiter must still be pending.
+                let fc = Arc::new(flow_control::create(16, 5));
+                let bytes_first = name == "X-bytes-then-msgs";
+                if bytes_first {
+                    fc.inc(16, 1);
+                } else {
+                    fc.inc(1, 5);
+                }
+                let fc3 = fc.clone();
+                let mut fut = Box::pin(async move { fc3.wait_for_available_space().await });
+                let mut cx = Context::from_waker(Waker::noop());
+                op();
+                assert!(matches!(fut.as_mut().poll(&mut cx), Poll::Pending), "no capacity at the start, yet the waiter resumed");
+                let fc2 = fc.clone();
+                let t = loom::thread::spawn(move || {
+                    if bytes_first {
+                        for _ in 0..5 {
+                            fc2.inc(1, 1);
+                            op();
+                        }
+                        fc2.dec(16, 1); // bytes 5 of 16, messages 5 of 5
+                    } else {
+                        fc2.inc(15, 0);
+                        op();
+                        fc2.dec(0, 5); // messages 0 of 5, bytes 16 of 16
+                    }
+                    op();
+                });
+                t.join().unwrap();
+                op();
+                assert!(matches!(fut.as_mut().poll(&mut cx), Poll::Pending), "the waiter resumed although one of the two counts is at its limit and nobody is changing them");
+                // and it does resume once both are below their limits
+                if bytes_first {
+                    fc.dec(0, 1);
+                } else {
+                    fc.dec(1, 0);
+                }
+                op();
+                assert!(matches!(fut.as_mut().poll(&mut cx), Poll::Ready(())), "both counts are below their limits but the waiter did not resume");
             }
             other => panic!("unknown model {}", other),
         }
@@ -293,9 +339,9 @@ fn check(tier: &str) -> i32 {
     let thorough = tier == "thorough";
     // (model, preemption bound, wall cap s)
     let plan: Vec<(&str, usize, u64)> = if thorough {
-        vec![("A1", 6, 900), ("A2", 3, 1500), ("C2", 5, 900), ("F1", 6, 900), ("B-bytes-stay-full", 6, 600), ("B-msgs-stay-full", 6, 600), ("G3", 3, 1500)]
+        vec![("A1", 6, 900), ("A2", 3, 1500), ("C2", 5, 900), ("F1", 6, 900), ("B-bytes-stay-full", 6, 600), ("B-msgs-stay-full", 6, 600), ("G3", 3, 1500), ("X-bytes-then-msgs", 6, 600), ("X-msgs-then-bytes", 6, 600)]
     } else {
-        vec![("A1", 3, 120), ("A2", 2, 120), ("C2", 3, 120), ("F1", 3, 120), ("B-bytes-stay-full", 3, 120), ("B-msgs-stay-full", 3, 120), ("G3", 2, 120)]
+        vec![("A1", 3, 120), ("A2", 2, 120), ("C2", 3, 120), ("F1", 3, 120), ("B-bytes-stay-full", 3, 120), ("B-msgs-stay-full", 3, 120), ("G3", 2, 120), ("X-bytes-then-msgs", 3, 120), ("X-msgs-then-bytes", 3, 120)]
     };
     let mut units = vec![];
     let (mut iters, mut ops, mut violations, mut known_hits) = (0u64, 0u64, 0u64, 0u64);
